@@ -20,6 +20,8 @@ THEOREMS = [_P + n for n in [
     "close_sent_terminated", "waiting_ping_off", "inv_run",
     "inv2_run", "echo_unless_sent", "both_closed_sends_close", "teardown_both_closed", "on_close_carries_peer_close",
     "close_code_is_peers", "w_run", "close_pending_timer_armed", "settled_at_quiescence",
+    "on_close_when_down_boundary", "in_flight_iff_blocked", "run_not_violated", "run_not_violatedQ",
+    "link_pumpQ", "link_act", "link_handleIn_close",
 ]]
 TRUSTED = [
     "asyncio task/timer ordering and BaseIOStream read/close semantics as abstracted by the model's receive loop "
@@ -33,7 +35,12 @@ ASSUMPTIONS = [
     "transport writes never fail or block (send errors are C12/C13)",
     "ping configurations: off, (interval 3, timeout 2), (interval 2, default timeout), (interval 2, timeout 0)",
 ]
-RULE = ("every case ends with release, release, 4 x timer (= fire all remaining timers), probe, and the harness reports "
+RULE = ("'received' (clauses about the peer's close frame) = read by the receive loop: a close frame that has arrived counts once every "
+        "message that arrived before it has been handed to on_message and no on_message is in flight (Spec.obs, reconstructed from "
+        "the arrival markers, the onMessage callbacks and the release events); the end of every history is judged as a step boundary; "
+        "a dedicated family covers the handshake around an asynchronous on_message (what happens while it is in flight x what is "
+        "queued behind it x when it is released x what follows; also released long before the handshake); "
+        "every case ends with release, release, 4 x timer (= fire all remaining timers), probe, and the harness reports "
         "whether the endpoint is quiescent (no live timer, no on_message in flight) for the oracle's settledAtQuiescence clause; "
         "a dedicated family covers a second protocol-level close() while the closing timeout is pending (ping timeout, then "
         "the application's close, silent or late peer); event sequences over {localClose, recvClose(5 payload forms), peerDisconnect, timer, recvPong, recvPing, "
@@ -44,13 +51,15 @@ CLAUSES = {
     "each side sends at most one close frame": "one_close_frame, close_frame_count",
     "and no data frame after it": "no_data_after_close",
     "echoes the peer's close code unless it had already sent its own close frame":
-        "echo_unless_sent (a close frame written after the peer's was received carries exactly the peer's code; with one_close_frame: unless ours was already sent) + both_closed_sends_close (our close frame is on the wire at every step boundary after a well-formed peer close)",
+        "echo_unless_sent (a close frame written after the peer's was received carries exactly the peer's code; with one_close_frame: unless ours was already sent) + both_closed_sends_close (our close frame is on the wire at every step boundary after a well-formed peer close was received); "
+        "every run, incl. asynchronous on_message in flight / queued frames ('received' = read by the receive loop, Spec.obs; in_flight_iff_blocked ties the observer's in-flight flag to the state)",
     "tears down the TCP connection once both sides have closed or the closing timeout elapses":
-        "teardown_both_closed (both closed) + teardown_timeout (timeout) + peer_terminated_closed (peer's close processed => transport down) "
+        "teardown_both_closed (both closed; every run) + teardown_timeout (timeout) + peer_terminated_closed (peer's close processed => transport down) "
         "+ close_pending_timer_armed (close sent and transport up => the closing timeout is armed, also after a second close()) "
-        "+ settled_at_quiescence (no timer live, nothing in flight, close frame sent => transport down and notified)",
-    "the close notification fires exactly once": "on_close_once + on_close_when_down + down_implies_notified",
-    "with the peer's code and reason when one was received": "on_close_carries_peer_close + close_code_is_peers (state form)",
+        "+ settled_at_quiescence (no timer live, nothing in flight, close frame sent => transport down and notified) "
+        "+ run_not_violated / run_not_violatedQ (the end of a run is judged as a step boundary too: no clause of the oracle is violated by any run of the model)",
+    "the close notification fires exactly once": "on_close_once + on_close_when_down + on_close_when_down_boundary + down_implies_notified",
+    "with the peer's code and reason when one was received": "on_close_carries_peer_close (every run) + close_code_is_peers (state form, every run)",
     "writes after closing fail with WebSocketClosedError": "write_after_close_fails + close_sent_terminated",
 }
 PARALLEL = True
@@ -101,6 +110,30 @@ def _double_close_cases(tails=(TAIL,), between=BETWEEN, closes=LOCAL_CLOSES):
 
 CFGS = [(s, p) for s in ("server", "client") for p in ("off", "p32", "p22", "p20")]
 
+# the close handshake around an asynchronous on_message: what happens while it is in flight (`DURING`), whether a
+# further message is queued behind it (`QUEUED`), when it is released, and what follows.  Also the message released
+# long before the handshake starts (`pre` ends with release).
+DURING = [["localClose", 1001, "bye"], ["localClose", None, None], ["recvClose", "0bb86f6b"], ["recvClose", "03e8"],
+          ["recvClose", ""], ["recvClose", "03eafffe"], ["peerDisconnect"], ["timer"], ["appWrite"]]
+QUEUED = [[], [["recvData", True]], [["recvData", False]], [["recvPing", "6869"]]]
+LATER = [[], [["recvClose", "0bb86f6b"]], [["localClose", 1001, "bye"]], [["timer"]], [["release"]], [["appWrite"]]]
+
+
+def _inflight_cases(cfgs, deep):
+    for side, ping in cfgs:
+        for qd in QUEUED:
+            # (a) one or two things happen while the on_message is in flight, then it is released
+            for k in ((1, 2) if deep else (1,)):
+                for mid in itertools.product(DURING, repeat=k):
+                    for post in (LATER if deep or k == 1 else LATER[:1]):
+                        yield {"side": side, "ping": ping, "ops": [list(o) for o in
+                               [["recvData", True]] + qd + list(mid) + [["release"]] + post + TAIL]}
+            # (b) the message is released (and the queue behind it drained) before anything else happens
+            for k in ((1, 2) if deep else (1,)):
+                for seq in itertools.product(DURING, repeat=k):
+                    yield {"side": side, "ping": ping, "ops": [list(o) for o in
+                           [["recvData", True]] + qd + [["release"], ["release"]] + list(seq) + TAIL]}
+
 
 def _enum(alpha, maxlen, cfgs, minlen=0):
     for L in range(minlen, maxlen + 1):
@@ -147,6 +180,7 @@ def gen_cases(rng, tier):
         yield from _enum(A_FULL, 2, [("server", "off"), ("client", "off")])
         yield from _enum(A_SIX, 4, [rng.choice([("server", "p22"), ("client", "p32"), ("client", "off"), ("server", "off")])], minlen=4)
         yield from _double_close_cases(between=BETWEEN[:4], closes=LOCAL_CLOSES[:2])
+        yield from _inflight_cases([("server", "off"), ("client", "off"), ("server", "p32"), ("client", "p22")], deep=False)
         n = 1500
     elif tier == "thorough":
         four = [("server", "off"), ("client", "off"), ("server", "p32"), ("client", "p22")]
@@ -156,6 +190,7 @@ def gen_cases(rng, tier):
         yield from _enum(A_SIX, 5, [("server", "off"), ("client", "off")], minlen=5)
         yield from _enum(A_SIX, 6, [four[rng.randrange(2)]], minlen=6)
         yield from _double_close_cases(tails=(TAIL, [["probe"]], [["timer"], ["probe"]]))
+        yield from _inflight_cases(CFGS, deep=True)
         n = 20000
     else:
         n = 6000
@@ -539,10 +574,23 @@ def nontrivial(case, impl):
 def stats(case, impl):
     out = ["cfg:%s/%s" % (case["side"], case["ping"]), "len:%d" % (len(case["ops"]) - len(TAIL))]
     seen = set()
+    msgs, inflight, gone = [], False, False
     for op, s in zip(case["ops"], impl["steps"]):
         seen.add("op:" + op[0])
+        if op[0] == "release":
+            inflight = False
+        elif inflight and op[0] != "probe":
+            seen.add("inflight:" + op[0])       # what happens while an asynchronous on_message is in flight
+        if op[0] == "recvData" and not gone:
+            msgs.append(bool(op[1]))
+        if op[0] == "peerDisconnect":
+            gone = True
         for e in s:
             seen.add("ev:" + e[0])
+            if e[0] == "onMessage" and msgs:
+                inflight = msgs.pop(0)
+            if inflight and e[0] in ("closeFrame", "streamClosed", "notify"):
+                seen.add("inflight-ev:" + e[0])
     evs = [e[0] for s in impl["steps"] for e in s]
     if "closeFrame" in evs and "streamClosed" not in evs:
         seen.add("end:close-pending")
